@@ -246,6 +246,12 @@ states (by position in the list, as `_zip_dict(init_state=chain_states, …)` do
 def afterStage {S V A P} (K : Kernel S V A P) (st : Stage) (sys : Sys S V P) (acc : Acc S V A P) :
     Sys S V P :=
   let states := acc.outs.map (·.state)
+  if acc.halted then
+    -- `if isinstance(exception, KeyboardInterrupt): return …` before finalizing adapters and
+    -- before advancing the offset
+    { params := acc.params, chains := setStates acc.chains states, offset := sys.offset,
+      finalStates := states, stopped := true }
+  else
   let f : P × List S × List Nat :=
     if st.kind ≠ .main ∧ acc.outs ≠ [] then
       K.fin st.kind (acc.outs.map (·.adapt)) states acc.params (acc.chains.map (·.rng))
@@ -254,7 +260,7 @@ def afterStage {S V A P} (K : Kernel S V A P) (st : Stage) (sys : Sys S V P) (ac
     chains := advance (setStates acc.chains f.2.1) f.2.2
     offset := if st.traced || st.stats then sys.offset + st.n else sys.offset
     finalStates := f.2.1
-    stopped := acc.halted }
+    stopped := false }
 
 /-- Body of `for stage, _ in sampling_stages_pb` (samplers.py 1099-1138); `k` is the position of
 the stage in the stage table, `intr = (stage, chain, iteration, operation)`. -/
